@@ -17,7 +17,6 @@ import (
 	"github.com/aukilabs/hagall/modules/odal"
 	"github.com/aukilabs/hagall/modules/vikja"
 	hws "github.com/aukilabs/hagall/websocket"
-	"github.com/prometheus/client_golang/prometheus"
 	"google.golang.org/protobuf/types/known/timestamppb"
 
 	"verifharness/internal/wire"
@@ -68,21 +67,7 @@ type World struct {
 	know *Knowledge
 }
 
-func sessionGauge() float64 {
-	mfs, err := prometheus.DefaultGatherer.Gather()
-	if err != nil {
-		return -1
-	}
-	var sum float64
-	for _, mf := range mfs {
-		if mf.GetName() == "session_count" {
-			for _, m := range mf.GetMetric() {
-				sum += m.GetGauge().GetValue()
-			}
-		}
-	}
-	return sum
-}
+func sessionGauge() float64 { return models.VerifSessionGauge() }
 
 func NewWorld(cfg Config, key *ecdsa.PrivateKey, out *bufio.Writer) *World {
 	w := &World{cfg: cfg, key: key, out: out, conns: map[int]*connState{}, byNanos: map[int]*wire.Req{}}
